@@ -27,6 +27,7 @@ func runC14(c *Ctx) {
 	ruleTeardown(c, "TEARDOWN")
 	ruleSoleDeleter(c)
 	ruleArm(c)
+	ruleArmedAfterAdd(c, "ARM")
 	ruleMonotone(c)
 	ruleShutdown(c)
 	ruleDNS(c)
